@@ -30,12 +30,12 @@ func dots(s string) string {
 // canonLex is the canonical text of a lexer result; the Coq model prints the
 // same text (LexPrint.v).
 //
-//	typ,start,end,line,col,lin,ctx,tag,att;...|E      scan completed
+//	typ,start,end,len,line,col,lin,ctx,tag,att;...|E      scan completed
 //	...|X,line,col,start                                syntax error of the lexer
 func canonLex(res verifhook.LexResult) string {
 	var b strings.Builder
 	for _, t := range res.Tokens {
-		fmt.Fprintf(&b, "%d,%d,%d,%d,%d,%d,%d,%s,%s;", t.Typ, t.Start, t.End, t.Line, t.Column, t.Lin, t.Ctx, dots(t.Tag), dots(t.Att))
+		fmt.Fprintf(&b, "%d,%d,%d,%d,%d,%d,%d,%d,%s,%s;", t.Typ, t.Start, t.End, t.TxtLen, t.Line, t.Column, t.Lin, t.Ctx, dots(t.Tag), dots(t.Att))
 	}
 	if res.HasErr {
 		fmt.Fprintf(&b, "|X,%d,%d,%d", res.ErrLine, res.ErrCol, res.ErrStart)
